@@ -87,7 +87,11 @@ def tracked_vars(fn):
     for v in cand:
         if fn.addr_taken(v):
             continue
-        out.add(v)
+        # only variables that are somewhere assigned a constant can correlate branches usefully;
+        # tracking the others just multiplies states
+        ds = fn.defs(v)
+        if any(d is not None and _constval(d, {}, set()) is not None for d in ds):
+            out.add(v)
     return out
 
 
